@@ -1,5 +1,5 @@
 SPECIFICATION Spec
-INVARIANT MutualExclusion
+INVARIANTS MutualExclusion NoUseAfterRelease OpenAnswersOwnEntry
 CONSTRAINT HighWater
 POSTCONDITION Accepted
 CHECK_DEADLOCK FALSE
